@@ -61,7 +61,7 @@ func newRGen(rng *rand.Rand, focus string) (*rGen, string) {
 		opens = append(opens, fmt.Sprintf("opensrc %d", s))
 	}
 	for t := 0; t < g.nt; t++ {
-		if (focus == "C02" || focus == "C03") && rng.IntN(3) == 0 {
+		if (focus == "C02" || focus == "C03" || focus == "C01" || focus == "C04") && rng.IntN(3) == 0 {
 			g.lateTgt[t] = true
 			continue
 		}
@@ -144,6 +144,19 @@ func (g *rGen) genBatch(w *rWorld, s int) string {
 		g.nextID[s] = h
 	}
 	return strings.TrimSpace(fmt.Sprintf("batch %d %d %s", s, h, strings.Join(tasks, " ")))
+}
+
+// genBatchFor: a single-task batch for a given owner
+func (g *rGen) genBatchFor(s, owner int) string {
+	if len(g.resend[s]) > 0 {
+		return g.genBatch(nil, s)
+	}
+	id := g.nextID[s]
+	g.nextID[s] += 1 + int64(g.rng.IntN(2))
+	g.hist[s] = append(g.hist[s], [2]int64{id, int64(owner)})
+	h := g.nextID[s]
+	g.high[s] = h
+	return fmt.Sprintf("batch %d %d %d:%d", s, h, id, owner)
 }
 
 func (g *rGen) genAck(w *rWorld, t int) string {
@@ -258,6 +271,13 @@ func (g *rGen) next(w *rWorld, i int) string {
 					g.queue = append(g.queue, fmt.Sprintf("opentgt %d", t))
 					return g.next(w, i)
 				}
+				if rng.IntN(2) == 0 {
+					// the target connects and, before any back-off sleeper wakes up, the sources send again
+					for k := 0; k < 1+rng.IntN(2); k++ {
+						g.queue = append(g.queue, g.genBatchFor(rng.IntN(g.ns), t))
+					}
+					return fmt.Sprintf("opentgt %d nosleep", t)
+				}
 				return fmt.Sprintf("opentgt %d", t)
 			}
 		case x < 90:
@@ -312,10 +332,15 @@ func (g *rGen) next(w *rWorld, i int) string {
 							level = w.srcLastAck[s]
 						}
 						g.resend[s] = nil
-						for _, tk := range g.hist[s] {
-							if tk[0] >= level {
-								g.resend[s] = append(g.resend[s], tk)
+						seenID := map[int64]bool{}
+						for _, rt := range w.received[s] { // only tasks the source really sent (a batch offered to a busy receiver was never sent)
+							if rt.id >= level && !seenID[rt.id] {
+								seenID[rt.id] = true
+								g.resend[s] = append(g.resend[s], [2]int64{rt.id, int64(rt.owner)})
 							}
+						}
+						if n := len(w.received[s]); n > 0 && g.nextID[s] <= w.received[s][n-1].id {
+							g.nextID[s] = w.received[s][n-1].id + 1
 						}
 						g.high[s] = level
 						return fmt.Sprintf("breaksrc %d", s)
